@@ -78,7 +78,11 @@ func reassign(args []string) error {
 		}
 		phase("initial", 3)
 		cl.Reassign(2, 1) // replica 2 now follows master 1
-		time.Sleep(700 * time.Millisecond) // several periodic refreshes
+		// wait for two complete periodic refreshes after the change
+		base := sut.ServiceStats(px.Name)["upstream.slots_refresh.success_total"]
+		for dl := time.Now().Add(6 * time.Second); time.Now().Before(dl) && sut.ServiceStats(px.Name)["upstream.slots_refresh.success_total"] < base+2; {
+			time.Sleep(20 * time.Millisecond)
+		}
 		phase("after-reassign", 2)
 		c.Close()
 		sut.StopWithin(px.P, 5*time.Second)
